@@ -12,8 +12,16 @@ from vplib import *
 import lmmm
 from lmmm import *
 
-OCAML = lmmm.OCAML
-HARNESS = lmmm.HARNESS
+import importlib.util as _ilu0, sys as _sys0
+if os.path.join(VERIF, "checks") not in _sys0.path:
+    _sys0.path.insert(0, os.path.join(VERIF, "checks"))
+def _load_part(name):
+    sp = _ilu0.spec_from_file_location("part_" + name, os.path.join(VERIF, "checks", name + ".py"))
+    m = _ilu0.module_from_spec(sp); sp.loader.exec_module(m)
+    return m
+prims_part = _load_part("prims_part")
+OCAML = lmmm.OCAML + prims_part.OCAML
+HARNESS = lmmm.HARNESS + prims_part.HARNESS
 
 
 def backend_summary(b):
@@ -69,7 +77,7 @@ def sched_tick_closure(src):
 # indices (in the fixed XGen stream of section (2)) of the programs recorded as finding F65
 XGEN_F65 = {2273, 2837, 2911, 3002, 4936}
 XGEN_X4 = {2706}       # a stateful function called from a closure that is created on every sample
-WITNESS_IDENTIFIED = {"X3", "X4", "W7", "W8", "W9"}    # findings identified by their witness programs only
+WITNESS_IDENTIFIED = {"X3", "X4", "W7", "W8", "W9", "P1", "P3", "P4"}    # findings identified by their witness programs only
 
 
 def src_classes(src):
@@ -276,6 +284,12 @@ def run(ck):
         else:
             viol.append(("VM and WASM differ on a shipped/mutated source", rq['src'], {"file": f, "mutation": kind, "vm": str(a)[:300], "wasm": str(b)[:300], "n": nrun, "sched": True}))
 
+    # ---------------- runtime-primitive part: the shared contract and its two implementations (Props/C01_prims.v, checks/prims_part.py) ----
+    ck.known = _known
+    pviol = prims_part.run_part(ck, quick)
+    ck.known = known_and_note
+    for what, rp in pviol[:6]:
+        ck.violation(what, {k: v for k, v in rp.items() if k != "no_input"}, no_input=bool(rp.get("no_input")))
     stale = sorted(w["id"] for w in wits if "repaired" not in w and w["id"] in findings and w["id"] not in reproduced)
     for fid in stale:
         print(f"NOTE: property=C01 the witness of listed finding {fid} no longer shows the defect (repaired? then turn the line into `fixed:`)", flush=True)
@@ -293,10 +307,10 @@ def run(ck):
         ck.sample({"shipped": meta[3][0], "mutation": meta[3][1], "source_head": reqs[3]['src'][:200]})
     for what, src, det in viol[:5]:
         ck.violation(what, {"source": src, **det, "how": "echo '{\"src\":<source>,\"n\":N,\"sched\":true,\"path\":<file>}' | .cache/target/lang/debug/lmmm_run"})
-    if disag and not viol:
+    if disag and not viol and not pviol:
         ck.broken.append(disag[0][0])
         ck.violation(disag[0][0], {"source": disag[0][1]}, no_input=True)
-    if not proved and not viol and not disag:
+    if not proved and not viol and not disag and not pviol:
         ck.violation("a proof obligation of Props/C01.v no longer checks", {"broken": ck.broken}, no_input=True)
     return finish(ck)
 
